@@ -1502,6 +1502,11 @@ func (r *Raft) appendEntries(rpc RPC, a *AppendEntriesRequest) {
 			// compacted away, so it has to be checked against the snapshot, the
 			// same way the leader builds the request (see setPreviousLog).
 			prevLogTerm = snapTerm
+		} else if a.PrevLogEntry < snapIdx {
+			// The previous entry is covered by our snapshot. Everything a
+			// snapshot covers is committed, and a leader holds every committed
+			// entry, so it cannot differ; we just can no longer look it up.
+			prevLogTerm = a.PrevLogTerm
 		} else {
 			var prevLog Log
 			if err := r.logs.GetLog(a.PrevLogEntry, &prevLog); err != nil {
@@ -1530,8 +1535,13 @@ func (r *Raft) appendEntries(rpc RPC, a *AppendEntriesRequest) {
 
 		// Delete any conflicting entries, skip any duplicates
 		lastLogIdx, _ := r.getLastLog()
+		snapIdx, _ := r.getLastSnapshot()
 		var newEntries []*Log
 		for i, entry := range a.Entries {
+			if entry.Index <= snapIdx {
+				// Already covered by our snapshot (hence committed): skip it.
+				continue
+			}
 			if entry.Index > lastLogIdx {
 				newEntries = a.Entries[i:]
 				break
@@ -1912,6 +1922,20 @@ func (r *Raft) installSnapshot(rpc RPC, req *InstallSnapshotRequest) {
 		}
 		reqConfigurationIndex = req.LastLogIndex
 	}
+
+	// A snapshot that does not reach past what we have already applied brings
+	// nothing new (it is a delayed or repeated request, or the leader backed up
+	// too far). Installing it would move the FSM, the last snapshot and the
+	// configuration backwards, so acknowledge it instead: we do hold everything
+	// it covers, and the leader resumes with AppendEntries right after it.
+	if req.LastLogIndex <= r.getLastApplied() {
+		r.logger.Info("ignoring installSnapshot request that is not newer than the applied state",
+			"snapshot-index", req.LastLogIndex, "last-applied", r.getLastApplied())
+		resp.Success = true
+		r.setLastContact()
+		return
+	}
+
 	version := getSnapshotVersion(r.protocolVersion)
 	sink, err := r.snapshots.Create(version, req.LastLogIndex, req.LastLogTerm,
 		reqConfiguration, reqConfigurationIndex, r.trans)
